@@ -82,6 +82,8 @@ class Sim(object):
         self.step_blocked = 0.0    # virtual time slept inside current step
         self.step_cpu = 0.0        # CPU seconds the last loop step computed
         self.step_sleeps = 0
+        self.step_calls = 0
+        self.max_calls_per_step = 20000
         self.max_step_blocked = 0.0
         self.blocked_total = 0.0   # all virtual time spent in time.sleep()
         self.blocked_reports = []  # (time, step, blocked, nsleeps, stack)
@@ -187,6 +189,24 @@ class Sim(object):
         self.ncalls += 1
         if self.ncalls > self.max_calls and not self.capped:
             self.capped = 'calls'
+        if self.in_step:
+            self.step_calls = getattr(self, 'step_calls', 0) + 1
+            if self.step_calls > self.max_calls_per_step:
+                # one loop step goes on making system calls without end and
+                # without sleeping (a retry loop that never gives up): the
+                # loop is dead; break out so that the episode can end
+                if not self.hung:
+                    from .world import _circus_stack
+                    self.hung = {'pid': None, 'stack': _circus_stack(),
+                                 'sleeps': self.step_sleeps,
+                                 'blocked': self.step_blocked,
+                                 'step': self.steps, 't': self.now - EPOCH,
+                                 'calls': self.step_calls}
+                    self.rec('hung_calls', self.step_calls)
+                e = RunCap('more than %d system calls in one loop step'
+                           % self.max_calls_per_step)
+                e.simulated = True      # (not a harness error when logged)
+                raise e
         be = self._bound_events
         if be:
             due = None
@@ -227,6 +247,7 @@ class Sim(object):
         self.in_step = True
         self.step_blocked = 0.0
         self.step_sleeps = 0
+        self.step_calls = 0
         self._block_seen = False
 
     def after_step(self):
